@@ -1,5 +1,6 @@
 """C02 case generator: tensor view adaptors and their compositions.
-   (2 1 term probes writes)   -- term language documented in coq/theories/Run/RunC02.v:
+   (2 1 term probes writes) [dynamic interpreter] and (2 2 term probes writes) [the same term built
+   with concrete adaptor types] -- term language documented in coq/theories/Run/RunC02.v:
    (0 id shape) leaf | (1 t params) range | (2 t params) mask | (3 t ((name idx)..)) index |
    (4 t ((pos name)..)) expansion | (5 t names) rename | (6 t names) reverse | (7 t names) access |
    (8 t names) transpose | (9 (t..) pos name kind) stack | (10 (t..) name kind) chain |
@@ -263,7 +264,7 @@ def renumber(t, counter):
     return [t[0], renumber(t[1], counter)] + t[2:]
 
 
-def case(t, rng, full=True):
+def case(t, rng, full=True, op=1):
     if not well_typed(t):
         return None
     t = renumber(t, [0])
@@ -275,7 +276,7 @@ def case(t, rng, full=True):
     else:
         probes = probes_for(sh, rng) if full else probes_for(sh, rng, cap=40)
         writes = writes_for(sh, rng)
-    return sx([2, 1, t, probes, writes])
+    return sx([2, op, t, probes, writes])
 
 
 # ---------------------------------------------------------------- parameter alphabets
@@ -547,6 +548,85 @@ def mutate_invalid(t, rng):
     return t
 
 
+# ---------------------------------------------------------------- static compositions (op 2)
+
+def rnd_all(lens, rng, kind):
+    """from_all parameters: mostly valid, sometimes from the boundary alphabet"""
+    out = []
+    for l in lens:
+        r = rng.random()
+        if r < 0.3:
+            out.append([])
+        elif r < 0.85:
+            s_ = rng.randrange(l)
+            out.append([[s_, rng.randrange(1, l - s_ + 1)] if kind == 1 else [s_, rng.randrange(0, max(1, l - s_))]])
+        else:
+            out.append([[rng.choice(ALPHA), rng.choice(ALPHA)]])
+    return out
+
+
+def static_terms(rng, n):
+    """random parameterisations of the term skeletons harness/src/c02/fixed.rs builds statically"""
+    for _ in range(n):
+        k = rng.randrange(8)
+        bad = rng.random() < 0.1
+        if k == 0:
+            names = rng.sample(range(5), 2)
+            lens = [rng.randint(1, 3), rng.randint(1, 3)]
+            ch = rng.randrange(2)
+            lens2 = list(lens)
+            lens2[ch] = rng.randint(1, 3)
+            if bad:
+                lens2[1 - ch] += 1
+            chain = [10, [leaf(1, lens, names), leaf(2, lens2, names)], names[ch], 1]
+            tot = list(lens)
+            tot[ch] += lens2[ch]
+            yield [6, [2, chain, [1, rng.randrange(2), rnd_all(tot, rng, 2)]], rng.sample(names, rng.randrange(3))]
+        elif k == 1:
+            names = rng.sample(range(5), 3)
+            lens = [rng.randint(1, 3) for _ in range(3)]
+            rev = rng.sample(names, rng.randrange(4)) if not bad else [FOREIGN]
+            yield [1, [6, leaf(1, lens, names), rev], [1, rng.randrange(2), rnd_all(lens, rng, 1)]]
+        elif k == 2:
+            names = rng.sample(range(5), 2)
+            lens = [rng.randint(1, 3), rng.randint(1, 3)]
+            pos = rng.randrange(3) if not bad else 3
+            sh = lens[:pos] + [1] + lens[pos:]
+            nm = names[:pos] + [7] + names[pos:]
+            d = rng.randrange(3)
+            i = rng.randrange(sh[d]) if rng.random() < 0.85 else sh[d]
+            yield [3, [4, leaf(1, lens, names), [[pos, 7]]], [[nm[d], i]]]
+        elif k == 3:
+            names = rng.sample(range(5), 3)
+            lens = [rng.randint(1, 3) for _ in range(3)]
+            p1 = list(names); rng.shuffle(p1)
+            p2 = list(p1); rng.shuffle(p2)
+            if bad:
+                p2[0] = p2[1]
+            yield [8, [7, leaf(1, lens, names), p1], p2]
+        elif k == 4:
+            l1 = rng.randint(1, 3)
+            l2 = l1 if not bad else l1 + 1
+            n1 = rng.randrange(4)
+            yield [9, [[5, leaf(1, [l1], [rng.randrange(4)]), [n1]], [5, leaf(2, [l2], [rng.randrange(4)]), [n1]]],
+                   rng.randrange(2) if rng.random() < 0.9 else 2, rng.choice([x for x in range(6) if x != n1] + ([n1] if bad else [])), 1]
+        elif k == 5:
+            rows, cols = rng.randint(1, 3), rng.randint(1, 3)
+            n0, n1 = rng.sample(range(4), 2)
+            yield [2, [12, 1, rows, cols, n0, n1 if not bad else n0], [1, rng.randrange(2), rnd_all([rows, cols], rng, 2)]]
+        elif k == 6:
+            l1 = rng.randint(1, 4)
+            yield [11, [1, leaf(1, [l1], [rng.randrange(4)]), [1, rng.randrange(2), rnd_all([l1], rng, 1)]], 0]
+        else:
+            names = rng.sample(range(5), 3)
+            lens = [rng.randint(1, 3) for _ in range(3)]
+            d = rng.randrange(3)
+            i = rng.randrange(lens[d]) if not bad else lens[d]
+            rest = [n for n in names if n != names[d]]
+            rng.shuffle(rest)
+            yield [7, [3, leaf(1, lens, names), [[names[d], i]]], rest]
+
+
 # ---------------------------------------------------------------- the generator
 
 def gen(tier, rng):
@@ -663,6 +743,11 @@ def gen(tier, rng):
                 if c:
                     yield c
             level = nxt
+    # 6. static (non-erased) compositions, op 2
+    for t in static_terms(rng, 2500 if quick else 25000):
+        c = case(t, rng, full=True, op=2)
+        if c:
+            yield c
     # 4. higher dimensionalities: D = 4..6 leaves with every adaptor kind (sampled parameters)
     for D in (4, 5, 6):
         for _ in range(6 if quick else 40):
@@ -694,8 +779,10 @@ def distribution(lines):
     kinds = {}
     depth_hist = {}
     for ln in lines:
-        if not ln.startswith("(2 1 ("):
+        if not (ln.startswith("(2 1 (") or ln.startswith("(2 2 (")):
             continue
+        if ln.startswith("(2 2 ("):
+            kinds["static"] = kinds.get("static", 0) + 1
         k = ln[6:].split(" ", 1)[0]
         kinds[k] = kinds.get(k, 0) + 1
         # nesting depth of the term = maximal run of "(k (" prefixes, approximated by counting
